@@ -118,6 +118,32 @@ template <class T> static std::string do_bcmpnull(const std::vector<uint64_t> &A
     std::string cmp; cmp += sgc(a.compare(c)); if (hasN) cmp += sgc(a.compare_n(c, n));
     return "cmp=" + cmp;
 }
+// an object that was moved from (move construction and move assignment) compared with a fresh empty object and with itself
+// through every operator: they must agree with compare() whatever the moved-from object holds (seeded C06-G compared the raw
+// in-object arrays, which still hold the old characters after a move)
+template <class T> static std::string do_mvcmp(const std::vector<uint64_t> &A) {
+    Blocks<T> ba(A);
+    std::string out;
+    for (int how = 0; how < 2; ++how) {
+        ST::buffer<T> x(ba.n, ba.len), e;
+        ST::buffer<T> y; if (how == 0) { ST::buffer<T> z(std::move(x)); y = z; } else { y = std::move(x); }
+        int c = x.compare(e);
+        out += std::string(how ? " a:" : "c:") + "eq=" + (x == e ? "1" : "0") + ",ne=" + (x != e ? "1" : "0") + ",req=" + (e == x ? "1" : "0") +
+               ",cmp=" + sgc(c) + ",self=" + ((x == x && !(x != x) && x.compare(x) == 0) ? "1" : "0") + ",size=" + std::to_string(x.size());
+    }
+    if (sizeof(T) == 1) {
+        std::string bytes; for (auto v : A) bytes.push_back((char)v);
+        for (int how = 0; how < 2; ++how) {
+            ST::string x = ST::string::from_validated(bytes.data(), bytes.size()), e;
+            ST::string y; if (how == 0) { ST::string z(std::move(x)); y = z; } else { y = std::move(x); }
+            int c = x.compare(e);
+            out += std::string(how ? " sa:" : " sc:") + "eq=" + (x == e ? "1" : "0") + ",ne=" + (x != e ? "1" : "0") + ",req=" + (e == x ? "1" : "0") +
+                   ",cmp=" + sgc(c) + ",cmpi=" + sgc(x.compare_i(e)) + ",lt=" + ((x < e || e < x) ? "1" : "0") +
+                   ",hash=" + (ST::hash()(x) == ST::hash()(e) ? "1" : "0") + ",hashi=" + (ST::hash_i()(x) == ST::hash_i()(e) ? "1" : "0") + ",size=" + std::to_string(x.size());
+        }
+    }
+    return out;
+}
 // static form with lengths that are only numbers: each operand is ONE readable unit, so the call is made only when
 // the number of units compared, min(min(la,n), min(lb,n)), is at most 1
 template <class T> static std::string do_raw(const std::vector<uint64_t> &A, const std::vector<uint64_t> &B, size_t la, size_t lb, bool hasN, size_t n) {
@@ -160,6 +186,7 @@ static std::string exec_case(const Args &a) {
     const std::string w = a.get("w");
     if (op == "bcmp") return BY_WIDTH(w, do_bcmp)(parse_units(a.get("a"), wbits(w)), parse_units(a.get("b"), wbits(w)), hasN, n);
     if (op == "bcmpnull") return BY_WIDTH(w, do_bcmpnull)(parse_units(a.get("a"), wbits(w)), hasN, n);
+    if (op == "mvcmp") return BY_WIDTH(w, do_mvcmp)(parse_units(a.get("a"), wbits(w)));
     if (op == "rawcmp")
         return BY_WIDTH(w, do_raw)(parse_units(a.get("a"), wbits(w)), parse_units(a.get("b"), wbits(w)),
                                    strtoull(a.get("la").c_str(), nullptr, 10), strtoull(a.get("lb").c_str(), nullptr, 10), hasN, n);
@@ -221,6 +248,11 @@ static void gen(Emitter &em, const Options &opt) {
     for (uint64_t len : {uint64_t(0), uint64_t(5), uint64_t(1) << 31, uint64_t(1) << 32}) {
         if (len == (uint64_t(1) << 32) && !thorough) continue;
         if (mine()) em.emit("bigcmp len=" + std::to_string(len));
+    }
+    // ---- moved-from objects of every size class against the empty object
+    for (const char *w : {"8", "16", "32", "w"}) for (size_t len : {(size_t)0, (size_t)1, (size_t)2, (size_t)5, (size_t)11, (size_t)12, (size_t)15, (size_t)16, (size_t)40}) {
+        std::vector<uint64_t> A; for (size_t i = 0; i < len; ++i) A.push_back(0x41 + (i % 26));
+        if (mine()) em.emit(std::string("mvcmp w=") + w + " a=" + hex_u64s(A, wbits(w)));
     }
     // ---- length-only cases through the static (ptr,len) form, all four element types
     const std::vector<uint64_t> LENS = {0, 1, (uint64_t(1) << 31) - 1, uint64_t(1) << 31, (uint64_t(1) << 31) + 1, uint64_t(1) << 32,
